@@ -211,8 +211,13 @@ def main(argv=None):
 
     # known findings: replay the witness; report while it still fails
     kf_lines = []
+    used_by_natives = set()
+    for nr in native_reports:
+        used_by_natives |= set(nr.get("known") or [])
     for f in known.get("findings", []):
-        if f.get("property") != a.prop or a.only:
+        # a finding is reported by the check of its own property, and by any other check whose bounded stand-in met
+        # (and set aside) exactly that finding's histories
+        if (f.get("property") != a.prop and f["id"] not in used_by_natives) or a.only:
             continue
         nat = run_native({"cmd": "custom", "func": f["witness"]["func"], "args": f["witness"].get("args", {})})
         if nat.get("error"):
